@@ -20,3 +20,20 @@ def pus_tm_octets(version, apid, count, service, subservice, msg_counter, dest_i
             + be(1, 2 * 16 + time_ref) + be(1, service) + be(1, subservice) + be(2, msg_counter) + be(2, dest_id)
             + timestamp + source_data)
     return body + be(2, crc16(body))
+
+
+def req_id_octets(version, ptype, shf, apid, flags, count):
+    """request ID (ECSS-E-ST-70-41C 8.1.2.1 / 5.4.11.2.1): the first four octets of the telecommand's primary header:
+    packet version number(3) | packet ID (type, sec. header flag, APID) | packet sequence control (flags, count)"""
+    return be(2, version * 8192 + ptype * 4096 + shf * 2048 + apid) + be(2, flags * 16384 + count)
+
+
+def srv1_source_data(req_id4, subservice, step_width, step, code_width, code, failure_data):
+    """source data of a service-1 verification report (8.1.2.x): request ID | step ID (step reports 5, 6 only) |
+    failure notice = failure code + failure data (failure reports 2, 4, 6, 8 only)"""
+    d = req_id4
+    if subservice == 5 or subservice == 6:
+        d = d + be(step_width, step)
+    if subservice == 2 or subservice == 4 or subservice == 6 or subservice == 8:
+        d = d + be(code_width, code) + failure_data
+    return d
